@@ -54,7 +54,7 @@ TYPE_KEYWORDS = {'instance': 'instance of', 'treat': 'treat as', 'castable': 'ca
 
 def level(node, tbl):
     t = node[0]
-    if t in ('num', 'name', 'var', 'str', 'lit', 'kind', 'pname', 'ulookup', 'dot', 'call', 'paren', 'root', 'parent'):
+    if t in ('num', 'name', 'var', 'svar', 'str', 'lit', 'kind', 'pname', 'ulookup', 'dot', 'call', 'paren', 'root', 'parent'):
         return ATOM_LEVEL
     if t == 'un':
         return tbl['neg'][0]
@@ -133,6 +133,10 @@ def gen_atom(rng, version, want='any'):
     if k < 0.7:
         return ['name', rng.choice('abc')]
     if k < 0.8:
+        if version != '1.0' and rng.random() < 0.25:
+            # '$' and the name are two tokens from XPath 2.0 on (spaces and comments may separate them); names that are
+            # also function names or keywords
+            return ['svar', rng.choice(['v', 'w', 'count', 'string', 'if', 'not', 'map', 'position'])]
         return ['var', rng.choice(['v', 'w', 'v', 'w', 'div', 'to', 'eq', 'in', 'return', 'and', 'if', 'for'])]
     if k < 0.88:
         return ['str', rng.choice(['s', 't', ''])]
@@ -156,7 +160,7 @@ def need_parens(child, parent, side, tbl, version):
         elif kind == 'path':
             # E1/E2: E1 is a relative path (same level), E2 a step (postfix expression or axis step)
             need = pl if side == 'L' else tbl['['][0]
-            if side == 'R' and child[0] in ('num', 'str', 'lit', 'var', 'call', 'ulookup'):
+            if side == 'R' and child[0] in ('num', 'str', 'lit', 'var', 'svar', 'call', 'ulookup'):
                 return False        # primary expressions are steps
         else:
             need = pl + 1
@@ -201,6 +205,8 @@ def tokens(node, tbl, version, rng=None, redundant=0.0):
         return [node[1]]
     if t == 'var':
         return ['$' + node[1]]
+    if t == 'svar':
+        return ['$', node[1]]
     if t == 'str':
         return ["'%s'" % node[1]]
     if t == 'lit':
@@ -239,7 +245,7 @@ def expected_tree(node):
         return '(%d)' % node[1]
     if t == 'name':
         return '(%s)' % node[1]
-    if t == 'var':
+    if t in ('var', 'svar'):
         return '($ (%s))' % node[1]
     if t == 'str':
         return "('%s')" % node[1]
